@@ -96,19 +96,24 @@ def safeEnding (s : Name) : Name :=
     s.take 1
   else r1.reverse
 
-/-- `make_export_name(name, is_file)` (the replacement is applied to the raw name). -/
-def makeExportName (name : Name) (isFile : Bool) : Name :=
-  let e0 := strip (subRuns exportKeep name)
-  let e1 := if e0.isEmpty then e0 else safeEnding e0
-  let e2 := if e1.isEmpty then ['0'] else e1
-  let e3 := match e2 with
-    | c :: _ => if isWord c then e2 else '0' :: e2
-    | [] => e2
-  if !isFile then
+def expBase (name : Name) : Name := strip (subRuns exportKeep name)
+def expEnding (e0 : Name) : Name := if e0.isEmpty then e0 else safeEnding e0
+def expNonEmpty (e1 : Name) : Name := if e1.isEmpty then ['0'] else e1
+def expWordHead : Name → Name
+  | [] => []
+  | c :: cs => if isWord c then c :: cs else '0' :: c :: cs
+def expDirTail (isFile : Bool) (e3 : Name) : Name :=
+  if isFile then e3
+  else
     match e3.getLast? with
     | some c => if c == '.' || c == '-' then e3 ++ ['0'] else e3
     | none => e3
-  else e3
+
+/-- `make_export_name(name, is_file)` (the replacement is applied to the raw name):
+replace, strip, `_SAFE_ENDING`, empty ↦ "0", non-word first character ↦ prefix "0",
+directories ending in `.` or `-` get a "0" appended. -/
+def makeExportName (name : Name) (isFile : Bool) : Name :=
+  expDirTail isFile (expWordHead (expNonEmpty (expEnding (expBase name))))
 
 def isSep (c : Char) : Bool := isWs c || c == '-'
 
@@ -268,6 +273,26 @@ def lookup (akai : Bool) : Node → List Name → Nat → Except Nat Node
       | some c => lookup akai c ts (i + 1)
       | none => .error i
     else .error i
+
+/-- index path of the node found, or the `ErrorInvalidPath` message of `parse_path`. -/
+def lookupIdx (akai : Bool) : Node → List Name → List Name → Nat → List Nat → Except Name (List Nat)
+  | _, [], _, _, acc => .ok acc.reverse
+  | n, t :: ts, all, i, acc =>
+    let fail : Except Name (List Nat) :=
+      let sofar : Name := if i == 0 then "image".toList
+        else (List.intersperse ['/'] (all.take i)).flatten ++ ['/']
+      .error ("The entity \"".toList ++ t ++ "\" was not found in \"".toList ++ sofar ++ "\".".toList)
+    if n.isDir then
+      match (List.range n.children.length).find? (fun k =>
+          match n.children[k]? with
+          | some c => sanitizeToken akai c.name == sanitizeToken akai t
+          | none => false) with
+      | some k =>
+        match n.children[k]? with
+        | some c => lookupIdx akai c ts all (i + 1) (k :: acc)
+        | none => fail
+      | none => fail
+    else fail
 
 /-- `Element.export_path` + `ExportManager.make_output_path`: export names from below the image down. -/
 def exportPath (components : List Name) : Name := (List.intersperse ['/'] components).flatten ++ ".wav".toList
